@@ -315,3 +315,13 @@ def reduce_order1(mesh):
     out['conn'] = conn
     out['order1_keep'] = keep
     return out
+
+
+def scale_mesh(mesh, k):
+    """multiply every coordinate by 2**k (exact in binary floating point): the
+    same mesh described in another unit of length"""
+    f = 2.0 ** k
+    mesh['xyz'] = [[float(c) * f for c in p] for p in mesh['xyz']]
+    mesh['scale_exp'] = k
+    mesh['descr'] = dict(mesh.get('descr', {}), scale='2^%d' % k)
+    return mesh
